@@ -592,8 +592,10 @@ def block_bytes(kind, blk):
         par ^= x
     return body + bytes((par,))
 
-def custom_tzx(prefix_tap, prog, blocks, rng, container='turbo', prefix_pause=1000, block_pauses=None, tape_pol=0, jitter=0):
-    """prefix_tap: bytes of the bin2tap-made TAP file; returns TZX bytes."""
+def custom_tzx(prefix_tap, prog, blocks, rng, container='turbo', prefix_pause=1000, block_pauses=None, tape_pol=0, jitter=0, splits=None):
+    """prefix_tap: bytes of the bin2tap-made TAP file; returns TZX bytes.
+    splits[i] = (pulses, ms): block i is preceded by a false start - a short pilot tone and a silence - which belongs to the
+    same data block as far as tap2sna is concerned, so the loader runs into counter time-outs while the tape is playing."""
     kind = prog['kind']
     lt = SHAPE[prog['accs'][0]].loop_time
     s = lt / 59.0
@@ -609,6 +611,10 @@ def custom_tzx(prefix_tap, prog, blocks, rng, container='turbo', prefix_pause=10
         sync1, sync2 = round(667 * s), round(735 * s)
         zero, one = round(855 * s) + jitter, round(1710 * s) + jitter
         npilot = blk.get('npilot', 1600)
+        if splits and splits[i]:
+            out.append(tzx_tone(pilot, splits[i][0]))
+            out.append(tzx_pause(splits[i][1]))
+            npulses += splits[i][0]
         if kind == 'cycle':
             # cycles are timed from a falling edge (rising when the loops are swapped): the first pulse of each bit
             # (pulse npulses + npilot + 3) must be low (high when swapped)
